@@ -13,7 +13,7 @@ Types are tuples:
   ("strs", enc)                    &[DiplomatStrSlice] / &[DiplomatStr16Slice]
   ("result", ok, err, spelling)    ok / err may be ("unit",)
   ("unit",) ("ordering",) ("write",)
-  ("cb", [argtypes], ret, mutable) impl Fn(..) -> ret / impl FnMut
+  ("cb", [argtypes], ret, mutable[, "static"]) impl Fn(..) -> ret / impl FnMut [+ 'static: kept by a holder opaque]
   ("tr", Name, [(method, mutable_self, [argtypes], ret)])   impl Name, a `pub trait Name` declared in the owner's module
 lt is None (anonymous / elided), "static", or a lifetime name without the tick.
 """
@@ -87,6 +87,7 @@ class Opaque:
         self.methods = []
         self.attrs = []
         self.mutable_ok = True
+        self.holder = None            # ("cb", args, ret, mutable, "static"): the opaque owns a boxed callback (feature_tests' CallbackHolder)
 
 
 class Method:
@@ -166,7 +167,7 @@ def ty_sig(t):
     if k == "result":
         return "R%s<%s,%s>" % ("" if t[3] == "std" else "d", ty_sig(t[1]), ty_sig(t[2]))
     if k == "cb":
-        return "cb(%s)->%s" % (",".join(ty_sig(a) for a in t[1]), ty_sig(t[2]))
+        return "cb%s(%s)->%s" % ("'static" if len(t) > 4 else "", ",".join(ty_sig(a) for a in t[1]), ty_sig(t[2]))
     if k == "tr":
         return "tr{%s}" % ";".join("%s(%s)->%s" % ("mut" if mm else "ref", ",".join(ty_sig(a) for a in ma), ty_sig(mr)) for _, mm, ma, mr in t[2])
     return k
@@ -192,7 +193,7 @@ DEFAULT_PROFILE = dict(
     dip_spellings=True, result_dip=False, keyword_params=True, nested_structs=True,
     max_params=5, cb_struct_args=True, opt_slices=True, char=False, ordering=True,
     mut_self=True, opt_mut_oref=True, namespaces=False, byte_slices=True, renames=False,
-    strs_utf8=False, result_prim_err=True, opt_owned=False, write_prob=0.18, cb_opt=True, cb_slices=True, cb_strs=True, cb_aggr_ret=True, traits=False, trait_prob=0.5,
+    strs_utf8=False, result_prim_err=True, opt_owned=False, write_prob=0.18, cb_opt=True, cb_slices=True, cb_strs=True, cb_aggr_ret=True, traits=False, trait_prob=0.5, held_callbacks=False, self_spelling=True,
 )
 
 
@@ -513,6 +514,8 @@ class Gen:
         if p["write"] and self.chance(p["write_prob"] if ret[0] != "opt" else max(0.5, p["write_prob"])) and ret[0] in ("unit", "result", "opt") and (ret[0] == "unit" or ret[1] == ("unit",)):
             params.append(("w", ("write",)))
         m = Method("m%d" % idx, sk, params, ret, lifetimes=lifetimes)
+        # spell the owner's own type as `Self` in this signature (Box<Self>, &Self, Self by value ...): a separate AST node (SelfType)
+        m.self_spelling = bool(self.p["self_spelling"] and not owner.lifetimes and self.chance(0.3))
         m.owner = owner
         return m
 
@@ -604,8 +607,21 @@ class Gen:
         # every opaque needs a way to be created
         for op in self.opaques:
             m = Method("make", None, [("seed", ("prim", "u32"))], ("obox", op.name, False))
+            m.self_spelling = bool(self.p["self_spelling"] and not op.lifetimes and self.chance(0.5))
             m.owner = op
             op.methods.insert(0, m)
+        # opaques that keep a `'static` callback beyond the call that received it (released when the holder is destroyed)
+        if self.p["callbacks"] and self.p["held_callbacks"]:
+            for _ in range(self.ri(1, 2)):
+                h = Opaque(self.fresh("Hold"))
+                h.holder = ("cb", [self.cb_arg() for _ in range(self.ri(0, 3))], self.cb_ret(), self.chance(0.4), "static")
+                mk = Method("make", None, [("seed", ("prim", "u32")), ("f", h.holder)], ("obox", h.name, False))
+                inv = Method("invoke", ("mut" if h.holder[3] else "ref", None), [], ("unit",))
+                inv.special = "invoke"
+                for m in (mk, inv):
+                    m.owner = h
+                    h.methods.append(m)
+                items.append(h)
         order = list(items)
         self.r.shuffle(order)
         mod.items = order
